@@ -36,13 +36,13 @@ func c17schema(pkg string) *spec.File {
 	f.Messages[2].Fields[0].Ann.Rules = nil
 	in, get, out := "."+pkg+".EchoReq", "."+pkg+".EchoGetReq", "."+pkg+".EchoResp"
 	f.Services = []*spec.Service{
-		{Name: "AlphaService", BasePath: spec.S("/alpha"), Headers: []spec.Header{{Name: "X-Alpha", Type: "string", Required: true}}, Methods: []*spec.Method{
+		{Name: "AlphaService", BasePath: spec.S("/alpha"), Headers: []spec.Header{{Name: "X-Trace", Type: "string"}, {Name: "X-Alpha", Type: "string", Required: true}}, Methods: []*spec.Method{
 			{Name: "AlphaCreate", In: in, Out: out, HTTP: &spec.HTTP{Path: "/items", Verb: 2}, Headers: []spec.Header{{Name: "X-M-Create", Type: "integer", Required: true}}},
 			{Name: "AlphaUpdate", In: in, Out: out, HTTP: &spec.HTTP{Path: "/items/{path_a}", Verb: 3}, Headers: []spec.Header{{Name: "X-M-Update", Type: "string", Format: "uuid", Required: true}}},
 			{Name: "AlphaFetch", In: get, Out: out, HTTP: &spec.HTTP{Path: "/items/{path_a}", Verb: 1}},
 			{Name: "AlphaPatch", In: in, Out: out, HTTP: &spec.HTTP{Path: "/items/{path_a}/part", Verb: 5}},
 		}},
-		{Name: "BetaService", BasePath: spec.S("/beta"), Headers: []spec.Header{{Name: "X-Beta", Type: "boolean", Required: true}}, Methods: []*spec.Method{
+		{Name: "BetaService", BasePath: spec.S("/beta"), Headers: []spec.Header{{Name: "X-Beta", Type: "boolean", Required: true}, {Name: "X-Span", Type: "string"}, {Name: "X-Baggage", Type: "string"}}, Methods: []*spec.Method{
 			{Name: "BetaCreate", In: in, Out: out, HTTP: &spec.HTTP{Path: "/things", Verb: 2}},
 			{Name: "BetaRemove", In: get, Out: out, HTTP: &spec.HTTP{Path: "/things/{path_a}", Verb: 4}, Headers: []spec.Header{{Name: "X-M-Remove", Type: "string", Required: true}}},
 		}},
